@@ -87,6 +87,7 @@ func (f *Future[T]) PipeTo(forwarders vivid.ActorRefs) error {
 		f.mu.Unlock()
 		// closed 标记先于结果写入：此时完成方可能尚未写入 message/err，需等待完成信号后再读取，
 		// 否则转发者会收到一个既无消息也无错误的半成品结果
+		verifhook.At("fut.pipe.wait", f, nil)
 		<-f.done
 		verifhook.At("fut.pipe.tell", f, nil)
 		f.tellForwarders(forwarders, f.message, f.err)
